@@ -1696,6 +1696,10 @@ func getTracking(td tables.TrackData, ptem float32, trackValue float32) float32 
 	if len(td.SizeTable) == 0 {
 		return 0.
 	}
+	if len(trackTableEntry.PerSizeTracking) < len(td.SizeTable) {
+		// invalid table : the offset to the per-size values is null
+		return 0.
+	}
 	if len(td.SizeTable) == 1 {
 		return float32(trackTableEntry.PerSizeTracking[0])
 	}
